@@ -211,7 +211,7 @@ bool prop_C12(Tape&, Report& rep)
     }
     int shard = int(opt_int("shard", 0)), nshards = int(opt_int("nshards", 1));
     PositionScorer scorer;
-    uint64_t total = 0, wins = 0;
+    uint64_t total = 0, wins = 0, interleaved = 0;
     std::map<std::string, uint64_t> perFile;
     std::string firstBit, firstEval;
     uint64_t badBit = 0, badEval = 0;
@@ -245,7 +245,20 @@ bool prop_C12(Tape&, Report& rep)
                         Square a = Square(sk), b = Square(ps), c = Square(wkk);
                         bitbase::normalize(pawnBlack ? BLACK : WHITE, side, a, b, c);
                         bool bit = bitbase::check(side, a, b, c);
-                        // (2) the evaluator's verdict
+                        // (2) the evaluator's verdict; before some of the positions another endgame is evaluated (the position
+                        //     with the pawn promoted, or a bare-kings position), as a search from a KPK root does all the time
+                        if ((total % 7) == 3 || (total % 11) == 5)
+                        {
+                            ref::Pos other = p;
+                            other.b[ps] = (total % 7) == 3 ? (pawnBlack ? 'q' : 'Q') : (pawnBlack ? 'r' : 'R');
+                            other.wtm = !pawnBlack ? false : true;  // the weak side to move (never leaves the weak king capturable)
+                            if (ref::domain_violation(other).empty())
+                            {
+                                Position op(ref::to_fen(other));
+                                scorer.score(op);
+                                ++interleaved;
+                            }
+                        }
                         Position pos(ref::to_fen(p));
                         Value v = scorer.score(pos);
                         Value vs = (pos.color() == (pawnBlack ? BLACK : WHITE)) ? v : -v;
@@ -268,6 +281,7 @@ bool prop_C12(Tape&, Report& rep)
     for (auto& kv : perFile) rep.cls(kv.first, kv.second);
     rep.cls("c12:positions", total);
     rep.cls("c12:won_for_pawn_side", wins);
+    rep.cls("c12:evaluations_preceded_by_another_endgame", interleaved);
     if (badBit || badEval)
     {
         std::string sig = badBit ? "kpk:bitbase" : "kpk:evaluation";
